@@ -19,6 +19,18 @@ import (
 )
 
 const deadline = 60 * time.Second
+
+// deadlineHits: waits that ran into the deadline (each is a cap, never a verdict). After three of them the
+// remaining waits of the run are cut to 3 s: a tree that silently drops what the cells wait for must not make
+// the check run for an hour.
+var deadlineHits int
+
+func curDeadline() time.Duration {
+	if deadlineHits >= 3 {
+		return 3 * time.Second
+	}
+	return deadline
+}
 const grace = 15 * time.Second
 
 type violation struct {
@@ -403,7 +415,7 @@ func runCell(p *pair, c cell, sh shape) {
 			defer p.mu.Unlock()
 			return p.downs > 0
 		}
-		okBar := t.wait(deadline, func() bool { return t.bars > barsBefore[i] || len(t.got[ev]) > before[i] || isDown() })
+		okBar := t.wait(curDeadline(), func() bool { return t.bars > barsBefore[i] || len(t.got[ev]) > before[i] || isDown() })
 		downs := 0
 		if isDown() {
 			downs = 1
@@ -420,6 +432,7 @@ func runCell(p *pair, c cell, sh shape) {
 				return
 			}
 			res.Caps = append(res.Caps, "deadline waiting for delivery: "+where)
+			deadlineHits++
 			deadlineClasses[key("deadline")] = true
 			p.dead = true
 			return
